@@ -73,8 +73,11 @@ def run(tier: str) -> dict:
     depth, cap, n_rand = (2, 2200, 500) if tier == "quick" else (3, 40000, 8000)
     wit = list(WITNESSES.items())
     bodies = [b for _, b in wit] + G.INTERPLAY + G.catalogue(depth, rng, cap) + [G.random_body(rng) for _ in range(n_rand)]
-    # the same interplay / boundary shapes again at the end, so that they are also met in the other module environments
-    bodies += G.INTERPLAY + G.NAMEABLES_LOAD[-9:] + G.INTERPLAY + G.NAMEABLES_LOAD[-9:]
+    n_main = len(bodies)
+    # the interplay / boundary shapes once more in each module environment, in a fixed order (process-level state
+    # leaking from one module's analysis into the next is exercised)
+    extra = G.INTERPLAY + G.NAMEABLES_LOAD[-9:]
+    bodies += extra * 3
     old_path0, old_cwd = sys.path[0], os.getcwd()
     cases, metas = [], []
     file_problems = []
@@ -83,8 +86,15 @@ def run(tier: str) -> dict:
         sys.path[0] = str(scratch)
         os.chdir(scratch)
         try:
-            for mi, grp in enumerate(G.modules(bodies)):
-                src = G.prelude_for(mi) + "\n".join(s for _, _, s in grp)
+            plan = []
+            main_plan = [(G.prelude_for(mi), grp) for mi, grp in enumerate(G.modules(bodies[:n_main]))]
+            for k_, e in enumerate((1, 2, 0)):
+                lo = n_main + k_ * len(extra)
+                for grp in G.modules(bodies[lo: lo + len(extra)], per_module=len(extra) + 1, offset=lo):
+                    plan.append((G.prelude_for(e), grp))
+            plan += main_plan
+            for mi, (prelude, grp) in enumerate(plan):
+                src = prelude + "\n".join(s for _, _, s in grp)
                 recs, fo = fa_lib.analyse_module(scratch / f"m{mi}.py", src)
                 if fo[0] != "ok":
                     file_problems.append({"module_source": src[-1500:], "outcome": fo})
